@@ -226,6 +226,7 @@ func runC08(c *Ctx) {
 	c.Rule("C08.R2", "WIRE", "a rule with the badfilter option is never emitted", 1)
 	c.Rule("C08.R3", "COV/SYM", "twin test = conjunction of same-field comparisons covering every modifier field", 14)
 	c.Rule("C08.R4", "PDT", "option comparison removes exactly the badfilter bit", 1)
+	c.Rule("C08.R10", "WIRE", "the DNS verdict rule comes only from the selector that filters badfilter rules", 1)
 	c.Rule("C08.R5", "WIRE", "both selectors apply the badfilter filter to their input before selecting", 3)
 
 	a := &anchors{c: c, rule: "C08.R1"}
@@ -250,6 +251,7 @@ func runC08(c *Ctx) {
 	checkBadfilterFilter(c, filter, twin, kBad)
 	checkTwinComparison(c, "C08.R3", "C08.R4", twin, kBad)
 	checkClientsEqual(c, "C08.R9")
+	checkVerdictOnlyFromSelector(c, "C08.R10", gdb)
 	if !c.noImports {
 		importRules(c, runC03, map[string]string{"C03.R8": "C08.R6"}, map[string]string{"C08.R6": "the '/*' normalisation acts on the pattern part only, so a rule and its $badfilter twin get equal patterns (shared with C03.R8)"})
 		importRules(c, runC01, map[string]string{"C01.R6": "C08.R8", "C01.R2": "C08.R8"}, map[string]string{"C08.R8": "the twin is indexed like any rule: tables decline only exact duplicates, first accepting table (shared with C01.R2/R6)"})
@@ -658,4 +660,62 @@ func checkClientsEqual(c *Ctx, rule string) {
 		}
 	}
 	c.Check(bad == "", rule, shortFn(eq)+": conjunction of element-wise list equalities", eq.Pos(), "every field of the set compared with slices.Equal", bad)
+}
+
+// checkVerdictOnlyFromSelector: the network rule a DNS result answers with is always the value
+// returned by the DNS selector (which removes the badfilter rules and their twins first); no path
+// takes a matched rule directly.
+func checkVerdictOnlyFromSelector(c *Ctx, rule string, gdb *ssa.Function) {
+	ws := fieldWrites(c.P, "", "DNSResult", "NetworkRule")
+	if len(ws) == 0 {
+		c.Fail(rule, "DNSResult.NetworkRule writers", gdb.Pos(), "UNDECIDED: no store to DNSResult.NetworkRule found")
+		return
+	}
+	// the baseline functions that write the field, directly or through helpers outside the vocabulary
+	writers := map[*ssa.Function]bool{}
+	for _, w := range ws {
+		if !c.P.IsNewHelper(w.Fn) {
+			writers[w.Fn] = true
+			continue
+		}
+		for _, fn := range c.P.AllLibFuncs() {
+			if !c.P.IsNewHelper(fn) && helperGroup(c.P, fn)[w.Fn] {
+				writers[fn] = true
+			}
+		}
+	}
+	var fns []*ssa.Function
+	for fn := range writers {
+		fns = append(fns, fn)
+	}
+	sort.Slice(fns, func(i, j int) bool { return FuncName(fns[i]) < FuncName(fns[j]) })
+	for _, fn := range fns {
+		g := NewGate(c.P)
+		g.Inline = inlineOnly()
+		s := g.Eval(fn)
+		u := g.U
+		bad := ""
+		n := 0
+		for _, ef := range s.Effects {
+			if ef.Kind != "store" || ef.Addr.Op != "faddr" || ef.Addr.Aux != "NetworkRule" || ef.Cond == False {
+				continue
+			}
+			if t := ef.Addr.Args[0].Typ; t == nil || !strings.HasSuffix(typeStr(t), "DNSResult") {
+				continue
+			}
+			n++
+			for leaf, lc := range u.Leaves(ef.Val) {
+				if u.bdd.And(lc, ef.Cond) == False || leaf.IsNil() {
+					continue
+				}
+				if leaf.Op == "call" && leaf.Aux == calleeName(gdb) {
+					continue
+				}
+				if bad == "" {
+					bad = c.P.Pos(ef.Pos) + ": the result's network rule is " + clip(u.Show(leaf), 100) + " when " + clip(u.ShowBool(u.bdd.And(lc, ef.Cond)), 160) + ", not the value of " + shortFn(gdb) + ": a matched $badfilter rule (or a rule its twin disables) can become the answer"
+				}
+			}
+		}
+		c.Check(bad == "", rule, shortFn(fn)+": DNSResult.NetworkRule = "+shortFn(gdb)+"(matched rules) or nil", fn.Pos(), fmt.Sprintf("%d store(s): every value leaf is the selector's return value", n), bad)
+	}
 }
